@@ -113,6 +113,22 @@ contract(f"{RC}::RequestCache.has", "has/get", vars={**VARS, "p": STR, "n": INT}
 contract(f"{RC}::RequestCache.clear", "clear", vars=VARS, requires=[R], call="self.clear()", raises=[], stubs=STUBS,
          ensures=[R, "q not in self._identifiers", "len(calls('cancel_all_pending_tasks')) == 1"])
 
+# the same with an enumerated table (0..2 outstanding requests), so that code which walks the table is followed as well
+contract(f"{RC}::RequestCache.clear", "clear.no-timeout-survives",
+         vars={"s1": STORED, "s2": STORED, "F1": FUT, "NCC": EXPR(f"resolve_class('{RC}::NumberCache')"),
+               "self": OBJ(f"{RC}::RequestCache", _identifiers=EXPR("dict([(cid(s1), s1), (cid(s2), s2)][:n])"),
+                           P=EXPR("set([cid(s1), cid(s2)][:n])"), _waiters=EXPR("{}"), lock=EXPR("nullcontext()"),
+                           _task_lock=EXPR("nullcontext()"), _shutdown=BOOL, _timeout_override=OPT(REAL), _timeout_filters=EXPR("None"),
+                           _logger=LOGGER())},
+         instances=[{"n": 0}, {"n": 1}, {"n": 2}], requires=["cid(s1) != cid(s2)"], call="self.clear()", raises=[],
+         stubs={**STUBS, f"{TM}::TaskManager.cancel_pending_task": {
+             "event": "cancel_pending_task", "returns": FUT,
+             "effects": ["self.P.discard(cid(name)) if isinstance(name, NCC) else None"],
+             "note": "A7: a cancelled task never runs; timeout tasks are registered under the cache OBJECT (contract `add`), so only a "
+                     "cache object names one"}},
+         ensures=["len(self._identifiers) == 0", "len(self.P) == 0"], bounded="0..2 outstanding requests",
+         note="after clear() no request is outstanding and no timeout task of a cleared request is left pending")
+
 contract(f"{RC}::NumberCache.__init__", "NumberCache.__init__.refuses-used-number",
          vars={"self": SELF, "p": STR, "n": INT, "NC": EXPR(f"resolve_class('{RC}::NumberCache')")}, requires=[R],
          call="NC(self, p, n)", raises=["RuntimeError"], stubs=STUBS,
@@ -185,8 +201,27 @@ contract(f"{RC}::RequestCache.shutdown", "shutdown.cancels-everything-and-closes
                            P=EXPR("{'a', 'b'} if n == 2 else ({'a'} if n == 1 else set())"), _waiters=EXPR("{}"),
                            lock=EXPR("nullcontext()"), _task_lock=EXPR("nullcontext()"), _shutdown=BOOL,
                            _timeout_override=OPT(REAL), _timeout_filters=EXPR("None"), _logger=LOGGER())},
-         instances=[{"n": 0}, {"n": 1}, {"n": 2}], call="run_coro(self.shutdown())", raises=[], stubs=STUBS,
+         instances=[{"n": 0}, {"n": 1}, {"n": 2}], call="run_coro(self.shutdown())", raises=[],
+         # the cancelled timeout tasks are awaited: shutdown SUSPENDS there, and whatever runs meanwhile (an add() already queued on the
+         # loop) must already find the gate closed and the table empty
+         stubs={**STUBS, f"{TM}::TaskManager.cancel_all_pending_tasks": {"event": "cancel_all_pending_tasks", "returns": EXPR("[SF1]"),
+                                                                        "effects": ["self.P.clear()"], "note": "A7: returns the cancelled tasks"}},
+         on_effect={"await:gather": ["self._shutdown", "len(self._identifiers) == 0"]},
+         covers=["len(calls('await:gather')) == 1"],
          ensures=["self._shutdown", "len(self._identifiers) == 0", "len(self.P) == 0",
                   "len(calls('cancel_all_pending_tasks')) == 1", "len(calls('future.cancel')) == n"],
          bounded="0..2 stored requests with one managed future each",
          note="after shutdown the table and the pending-task set are empty and every managed future was cancelled")
+
+# bounded native stand-in for the schedule part of the property (A7 abstracts asyncio in the contracts above): event orders
+# enumerated exhaustively on the real RequestCache / TaskManager under a virtual clock, against a per-registration oracle
+native("request-cache-histories", "natives/c10_histories.py",
+       bound="every word of length <= 4 (5 in the thorough tier) over {add c1, add c2, pop c1, pop c2, one loop iteration, advance the "
+             "virtual clock to the next timer, clear, shutdown} x {distinct identities, same identity} x {plain on_timeout, c1's on_timeout "
+             "pops c2}; two cache objects with one managed future each",
+       functions=["ipv8/requestcache.py::RequestCache.add", "ipv8/requestcache.py::RequestCache.pop", "ipv8/requestcache.py::RequestCache._on_timeout",
+                  "ipv8/requestcache.py::RequestCache.clear", "ipv8/requestcache.py::RequestCache.shutdown",
+                  "ipv8/taskmanager.py::TaskManager.register_task", "ipv8/taskmanager.py::TaskManager.cancel_pending_task",
+                  "ipv8/taskmanager.py::delay_runner"],
+       note="each registration ends in exactly one way; duplicates refused while outstanding; managed futures completed on timeout, "
+            "cancelled at shutdown; nothing fires for claimed, cleared or shut-down registrations")
